@@ -3,7 +3,10 @@
 Sub-checks
   hdf5    write histories (1-4 objects of one class written to one or two group paths of one file with
           overwrite=True, through a file name / pathlib.Path / open h5py.File) then from_hdf5 -> observably equal to the
-          LAST object written to that path.
+          LAST object written to that path.  The objects of one history differ in optional fields, sizes (half of the
+          later writes keep the sizes of the object stored at that location before) and in the dtype WIDTH of every
+          numeric field the class accepts in several widths, with values that need the drawn width; numeric arrays must
+          come back in the item size they were written with (``width`` clauses; nrep excepted, its reader normalises).
   frames  pandas / CSV / *_dict / egmap forms with matching options (same column names, separators, units on both sides;
           label columns for absent labels are switched off on both sides); CSV files are also overwritten 1-3 times.
   vcf     VCF text generated from a grammar (phased diploid GT) -> from_vcf of both genotype classes.
@@ -54,6 +57,11 @@ ASSUMPTIONS = [
     "0.01*(100*x): relative tolerance 4*eps; HDF5, pandas(M units), copies: exact",
     "VCF: contig names are decimal integers (from_vcf does int(CHROM)), >= 1 record, unique sample names, all calls "
     "phased diploid and non-missing; identifier '.' (missing) is not compared",
+    "dtype widths: a field is built in a non-default width (float32; int8/int16/int32) only for classes whose setter accepts "
+    "it (probed per class and field at run time: TypeError from the constructor = class insists on one dtype; coancestry "
+    "matrices insist on float64/int64, genomic-model coefficients and matrix vrnt_genpos/vrnt_xoprob on float64); from_hdf5 "
+    "returns numeric arrays in the item size written, except nrep (h5py_File_read_ndarray_int normalises to the platform "
+    "integer) which is compared in value only; frames/CSV carry no dtype and are generated in the default widths",
     "HDF5 group path segments and field-name collisions: segments are prefixed with 'g' so a group is never named like a field",
 ]
 
@@ -419,12 +427,57 @@ def _labels(draw, k, prefix, unique):
     return draw(st.lists(_label(prefix, minlen), min_size=k, max_size=k))
 
 
+# dtype widths.  Every field for which a class accepts several widths of one kind (setters that only ask for "integer" /
+# "floating" / "real" / ndarray) is built in a drawn width, with values that need that width: an offset near the top of the
+# drawn integer type is added to group ids / chromosome numbers / haplotype groups / replicate counts, positions are spread
+# over the range of the drawn type, float arrays are cast to the drawn float type (the object then *holds* float32 values).
+# Which (class, field) pairs accept a non-default width is probed from the classes (``_accepts``), the rest keep the default.
+_INT_OFFS = {"int8": [0, 0, 100, 124, -100], "int16": [0, 100, 124, 1000, 32000, 32764, -200],
+             "int32": [0, 124, 32764, 2023001, 2 ** 31 - 4, -40000], "int64": [0, 0, 124, 32764, 2023001, 2 ** 31 - 4, 2 ** 40]}
+_INT_MAX = {"int8": 2 ** 7 - 1, "int16": 2 ** 15 - 1, "int32": 2 ** 31 - 1, "int64": 2 ** 63 - 1}
+_INT_FIELDS = ("taxa_grp", "vrnt_chrgrp", "vrnt_hapgrp", "nrep", "map_chrgrp")
+_FLOAT_FIELDS = ("mat", "location", "scale", "map_genpos", "var")
+
+
 @st.composite
-def content_strategy(draw, frame=False):
-    """everything any builder may need; optional parts are None when absent"""
+def widths_strategy(draw):
+    """field -> [integer dtype, offset]  |  float dtype  |  [integer dtype, spread?] for positions"""
+    profile = draw(st.sampled_from(["narrow", "wide", "mixed", "mixed"]))
+
+    def idt(choices=("int8", "int16", "int32", "int64")):
+        if profile == "narrow":
+            return choices[0] if draw(st.booleans()) else draw(st.sampled_from(choices))
+        if profile == "wide":
+            return "int64"
+        return draw(st.sampled_from(choices))
+
+    def fdt():
+        if profile == "narrow":
+            return "float32"
+        if profile == "wide":
+            return "float64"
+        return draw(st.sampled_from(["float32", "float64"]))
+
+    dt = {"profile": profile}
+    for f in _INT_FIELDS:
+        d = idt()
+        dt[f] = [d, draw(st.sampled_from(_INT_OFFS[d]))]
+    for f in ("vrnt_phypos", "map_phypos"):
+        dt[f] = [idt(("int32", "int64") if f == "map_phypos" else ("int16", "int32", "int64")), draw(st.booleans())]
+    for f in _FLOAT_FIELDS:
+        dt[f] = fdt()
+    return dt
+
+
+@st.composite
+def content_strategy(draw, frame=False, sizes=None):
+    """everything any builder may need; optional parts are None when absent.  ``sizes``: take the array sizes of an earlier
+    content (a later write of an object of the same shape)"""
     n = draw(st.integers(1, 4))
     p = draw(st.integers(1, 5))
     t = draw(st.integers(1, 3))
+    if sizes is not None:
+        n, p, t = sizes["n"], sizes["p"], sizes["t"]
     rich = draw(st.sampled_from(["poor", "rich", "mixed", "mixed"]))
 
     def have():
@@ -457,6 +510,8 @@ def content_strategy(draw, frame=False):
     # models / phenotyping
     c["q"] = draw(st.integers(1, 2))
     c["nmisc"] = draw(st.sampled_from([None, 0, 1, 2]))
+    if sizes is not None:
+        c["q"], c["nmisc"] = sizes["q"], sizes["nmisc"]
     c["model_name"] = draw(_label("", 0)) if have() else None
     if have():
         keys = draw(st.lists(st.sampled_from(["ha", "hb", "hc", "hé"]), min_size=0, max_size=3, unique=True))
@@ -466,18 +521,19 @@ def content_strategy(draw, frame=False):
                       for k in keys]
     else:
         c["hyper"] = None
-    c["nenv"] = draw(st.integers(1, 3))
+    c["nenv"] = draw(st.integers(1, 3)) if sizes is None else sizes["nenv"]
     c["nrep"] = draw(st.one_of(st.integers(1, 3), st.just("array")))
     c["var"] = [draw(st.sampled_from([None, 0.0, 0.5, "array"])) for _ in range(3)]
     # genetic maps
-    nchr = draw(st.integers(1, 3))
+    nchr = draw(st.integers(1, 3)) if sizes is None else len(sizes["map_sizes"])
     c["map_chr"] = draw(st.lists(st.sampled_from([1, 2, 3, 5, 10, 23]), min_size=nchr, max_size=nchr, unique=True))
-    c["map_sizes"] = [draw(st.integers(2, 4)) for _ in range(nchr)]
+    c["map_sizes"] = [draw(st.integers(2, 4)) for _ in range(nchr)] if sizes is None else list(sizes["map_sizes"])
     nm = sum(c["map_sizes"])
     c["map_name"] = _labels(draw, nm, px("m"), False) if have() else None
     c["map_fncode"] = draw(st.lists(st.one_of(st.sampled_from(["H", "K", "U"]), _label(px("k"), 0)), min_size=nm,
                                     max_size=nm)) if have() else None
     c["map_shuffle"] = draw(st.integers(0, 10 ** 6))
+    c["dt"] = None if frame else draw(st.one_of(st.none(), widths_strategy(), widths_strategy()))
     return c
 
 
@@ -502,7 +558,12 @@ def hdf5_case(draw):
     rel = draw(st.sampled_from(["child", "sibling"]))
     hist = []
     for i in range(nwrites):
-        hist.append({"slot": draw(st.sampled_from([0, 0, 0, 1])), "content": draw(content_strategy())})
+        # half of the later writes to a location store an object with the array sizes of the one stored there before
+        # (same shapes; other values / labels / optional fields / dtype widths)
+        slot = draw(st.sampled_from([0, 0, 0, 1]))
+        prev = [h["content"] for h in hist if h["slot"] == slot]
+        same = bool(prev) and draw(st.booleans())
+        hist.append({"slot": slot, "content": draw(content_strategy(sizes=prev[-1] if same else None))})
     return {"cls": clsname, "how": draw(st.sampled_from(["str", "str", "path", "handle"])), "fname": draw(_FNAME),
             "segs": segs, "other": other, "rel": rel, "lead_slash": draw(st.booleans()),
             "trail_slash": draw(st.booleans()), "foreign_mat": draw(st.sampled_from([False, False, True])),
@@ -580,6 +641,73 @@ def _floats(rng, shape, c, allow_nan=True):
     return a
 
 
+def _width(c, clsname, field):
+    """drawn width spec of ``field`` if the content has one and the class accepts other widths there, else None"""
+    dt = c.get("dt")
+    if not dt or field not in dt:
+        return None
+    if not dt.get("__probe__") and not _accepts(clsname, field):
+        return None
+    return dt[field]
+
+
+def _ints(values, spec):
+    """small non-negative int64 ``values`` -> drawn integer type, shifted towards the top (or below zero) of its range"""
+    values = numpy.asarray(values, dtype="int64")
+    if spec is None:
+        return values
+    dtype, off = spec
+    if off > 0 and values.size:
+        off = min(off, _INT_MAX[dtype] - int(values.max()))
+    return (values + off).astype(dtype)
+
+
+def _positions(values, spec, top):
+    """positions in [0, top] (int64) -> drawn integer type; ``spread``: moved to the upper part of the type's range"""
+    values = numpy.asarray(values, dtype="int64")
+    if spec is None:
+        return values
+    dtype, spread = spec
+    lim = _INT_MAX[dtype]
+    if top > lim:
+        values = values % lim
+        top = lim
+    if spread:
+        values = values + ((lim - top) if dtype != "int64" else 2 ** 33 + 5)
+    return values.astype(dtype)
+
+
+def _fcast(a, spec):
+    return a if spec is None else a.astype(spec)
+
+
+_ACCEPTS = {}
+_PROBE = {"n": 2, "p": 2, "t": 1, "rich": "rich", "vseed": 1, "float_mode": "dyadic", "nan": False, "taxa": ["a", "b"],
+          "taxa_grp": [0, 1], "trait": ["q"], "vrnt_chrgrp": [1, 2], "vrnt_phypos": [5, 9], "vrnt_name": ["m", "k"],
+          "vrnt_genpos": True, "vrnt_xoprob": True, "vrnt_hapgrp": True, "vrnt_hapalt": ["A", "C"], "vrnt_hapref": ["G", "T"],
+          "vrnt_mask": True, "group_taxa": False, "group_vrnt": False, "ploidy": 2, "wild": False, "q": 1, "nmisc": 1,
+          "model_name": "m", "hyper": None, "nenv": 2, "nrep": "array", "var": ["array", "array", "array"], "map_chr": [1],
+          "map_sizes": [2], "map_name": ["m", "k"], "map_fncode": ["H", "K"], "map_shuffle": 0}
+_PROBE_SPEC = {"taxa_grp": ["int16", 0], "vrnt_chrgrp": ["int16", 0], "vrnt_hapgrp": ["int16", 0], "nrep": ["int16", 0],
+               "map_chrgrp": ["int16", 0], "vrnt_phypos": ["int32", False], "map_phypos": ["int32", False],
+               "mat": "float32", "location": "float32", "scale": "float32", "map_genpos": "float32", "var": "float32"}
+
+
+def _accepts(clsname, field):
+    """does the class take a non-default width in this field?  (probed once: build a small object with only this field in
+    another width; a TypeError of the setter = the class insists on one dtype, the field then keeps the default)"""
+    key = (clsname, field)
+    if key not in _ACCEPTS:
+        c = dict(_PROBE)
+        c["dt"] = {"__probe__": True, field: _PROBE_SPEC[field]}
+        try:
+            build(clsname, c)
+            _ACCEPTS[key] = True
+        except TypeError:
+            _ACCEPTS[key] = False
+    return _ACCEPTS[key]
+
+
 def _obj(lst):
     out = numpy.empty(len(lst), dtype=object)
     for i, s in enumerate(lst):
@@ -604,19 +732,20 @@ def build_matrix(clsname, c, frame=False):
         mat = _floats(rng, shape, c, allow_nan=not frame)
         if ent["shape"] == "nn" and c["vseed"] % 2 == 0 and not numpy.isnan(mat).any():
             mat = (mat + mat.T) / 2.0      # half of the square matrices symmetric, half not (transposition must show)
+        mat = _fcast(mat, _width(c, clsname, "mat"))
     params = inspect.signature(cls.__init__).parameters
     kw = {"mat": mat}
     if "taxa" in params and c["taxa"] is not None:
         kw["taxa"] = _obj(c["taxa"])
     if "taxa_grp" in params and c["taxa_grp"] is not None:
-        kw["taxa_grp"] = numpy.array(c["taxa_grp"], dtype="int64")
+        kw["taxa_grp"] = _ints(c["taxa_grp"], _width(c, clsname, "taxa_grp"))
     if "trait" in params and c["trait"] is not None:
         kw["trait"] = _obj(c["trait"])
     if "vrnt_chrgrp" in params:
         if c["vrnt_chrgrp"] is not None:
-            kw["vrnt_chrgrp"] = numpy.array(c["vrnt_chrgrp"], dtype="int64")
+            kw["vrnt_chrgrp"] = _ints(c["vrnt_chrgrp"], _width(c, clsname, "vrnt_chrgrp"))
         if c["vrnt_phypos"] is not None:
-            kw["vrnt_phypos"] = numpy.array(c["vrnt_phypos"], dtype="int64")
+            kw["vrnt_phypos"] = _positions(c["vrnt_phypos"], _width(c, clsname, "vrnt_phypos"), 10 ** 9)
         if c["vrnt_name"] is not None:
             kw["vrnt_name"] = _obj(c["vrnt_name"])
         if c["vrnt_genpos"]:
@@ -624,7 +753,7 @@ def build_matrix(clsname, c, frame=False):
         if c["vrnt_xoprob"]:
             kw["vrnt_xoprob"] = rng.integers(0, 33, size=p) / 64.0
         if c["vrnt_hapgrp"]:
-            kw["vrnt_hapgrp"] = rng.integers(0, 3, size=p).astype("int64")
+            kw["vrnt_hapgrp"] = _ints(rng.integers(0, 3, size=p), _width(c, clsname, "vrnt_hapgrp"))
         if c["vrnt_hapalt"] is not None:
             kw["vrnt_hapalt"] = _obj(c["vrnt_hapalt"])
         if c["vrnt_hapref"] is not None:
@@ -634,8 +763,8 @@ def build_matrix(clsname, c, frame=False):
     if "ploidy" in params:
         kw["ploidy"] = int(c["ploidy"])
     if "location" in params:
-        kw["location"] = _floats(rng, (t,), c, allow_nan=False)
-        kw["scale"] = numpy.abs(_floats(rng, (t,), c, allow_nan=False)) + 0.125
+        kw["location"] = _fcast(_floats(rng, (t,), c, allow_nan=False), _width(c, clsname, "location"))
+        kw["scale"] = _fcast(numpy.abs(_floats(rng, (t,), c, allow_nan=False)) + 0.125, _width(c, clsname, "scale"))
     obj = cls(**kw)
     grouped = []
     if c["group_taxa"] and kw.get("taxa_grp") is not None and hasattr(obj, "group_taxa"):
@@ -661,9 +790,13 @@ def build_gmap(clsname, c):
         genpos += gp.tolist()
     nm = len(chrgrp)
     perm = numpy.random.default_rng(c["map_shuffle"]).permutation(nm)
-    chrgrp = numpy.array(chrgrp, dtype="int64")[perm]
-    phypos = numpy.array(phypos, dtype="int64")[perm]
-    genpos = numpy.array(genpos, dtype="float64")[perm]
+    chrgrp = _ints(numpy.array(chrgrp, dtype="int64")[perm], _width(c, clsname, "map_chrgrp"))
+    pspec = _width(c, clsname, "map_phypos")
+    top = 4 * 10 ** 6 + 100                # bound of the positions and stops generated here
+    stop = numpy.array(phypos, dtype="int64")[perm] + rng.integers(0, 100, size=nm)
+    phypos = _positions(numpy.array(phypos, dtype="int64")[perm], pspec, top)
+    stop = _positions(stop, pspec, top)
+    genpos = _fcast(numpy.array(genpos, dtype="float64")[perm], _width(c, clsname, "map_genpos"))
     if clsname == "StandardGeneticMap":
         return StandardGeneticMap(vrnt_chrgrp=chrgrp, vrnt_phypos=phypos, vrnt_genpos=genpos), ["vrnt"]
     kw = {}
@@ -671,8 +804,7 @@ def build_gmap(clsname, c):
         kw["vrnt_name"] = _obj(c["map_name"])[perm]
     if c["map_fncode"] is not None:
         kw["vrnt_fncode"] = _obj(c["map_fncode"])[perm]
-    stop = phypos + rng.integers(0, 100, size=nm)
-    return ExtendedGeneticMap(vrnt_chrgrp=chrgrp, vrnt_phypos=phypos, vrnt_stop=stop.astype("int64"), vrnt_genpos=genpos,
+    return ExtendedGeneticMap(vrnt_chrgrp=chrgrp, vrnt_phypos=phypos, vrnt_stop=stop, vrnt_genpos=genpos,
                               **kw), ["vrnt"]
 
 
@@ -705,10 +837,19 @@ def build_ge(c, gpmod=None):
         gpmod, _ = build_gmod("DenseAdditiveLinearGenomicModel", c)
     t = c["t"]
     nenv = int(c["nenv"])
-    nrep = c["nrep"] if isinstance(c["nrep"], int) else rng.integers(1, 4, size=nenv).astype("int64")
+    nrep = c["nrep"]
+    if not isinstance(nrep, int):
+        spec = _width(c, "G_E_Phenotyping", "nrep")
+        nrep = _ints(rng.integers(1, 4, size=nenv), None if spec is None else [spec[0], abs(spec[1])])
+    vspec = _width(c, "G_E_Phenotyping", "var")
     vs = []
     for v in c["var"]:
-        vs.append(rng.integers(0, 17, size=t) / 8.0 if v == "array" else v)
+        if v == "array":
+            v = rng.integers(0, 17, size=t) / 8.0
+            if vspec is not None and c["float_mode"] != "dyadic":
+                v = v + rng.random(size=t)              # not representable in single precision
+            v = _fcast(v, vspec)
+        vs.append(v)
     return G_E_Phenotyping(gpmod=gpmod, nenv=nenv, nrep=nrep, var_env=vs[0], var_rep=vs[1], var_err=vs[2],
                            rng=numpy.random.default_rng(0)), []
 
@@ -847,6 +988,7 @@ def check_hdf5(case, ctx):
                 for gname in grouped:
                     ctx.label("grouped_" + gname)
                 ctx.label("non_ascii_label", has_non_ascii(step["content"]))
+                ctx.label("dtype_widths:" + (step["content"].get("dt") or {}).get("profile", "default"))
         finally:
             if handle is not None:
                 handle.close()
@@ -905,9 +1047,13 @@ def check_hdf5(case, ctx):
             finally:
                 if rh is not None:
                     rh.close()
-            mm = mismatches(last, back)
+            sback = snapshot(back)
+            mm = mismatches(last, sback)
             if fam == "ge":
                 mm = [m for m in mm if _top(m[0]) != "rng"]
+            if not (case.get("foreign_mat") and fam == "geno"):
+                mm = mm + [m for m in width_mismatches(last, sback) if not any(m[0] == x[0] for x in mm)]
+            _width_labels(ctx, written[slot])
             str_hyper = fam == "gmod" and any(isinstance(v, str) for k, v in (last_content[slot]["hyper"] or []))
             ctx.label("str_hyperparameter", str_hyper)
             if ctx.known("F-C16-d", str_hyper):
@@ -920,6 +1066,45 @@ def check_hdf5(case, ctx):
                          % (len(written[slot]), "; ".join("%s: %s" % (m[0], m[2]) for m in stale_mm[:4])))
             report(ctx, "hdf5.readback", other_mm,
                    "(class %s, group %r)" % (clsname, groups[slot]))
+
+
+# numeric arrays come back from HDF5 in the item size they were written with; the one reader that normalises on purpose is
+# h5py_File_read_ndarray_int (nrep of the phenotyping protocol -> platform integer), so nrep is compared in value only
+_WIDTH_NOT_KEPT = {"nrep"}
+
+
+def width_mismatches(sa, sb):
+    """top-level numeric arrays of two snapshots that agree in kind and shape but differ in item size"""
+    out = []
+    for k in sorted(set(sa["attrs"]) & set(sb["attrs"])):
+        a, b = sa["attrs"][k], sb["attrs"][k]
+        if k in _WIDTH_NOT_KEPT or not (isinstance(a, numpy.ndarray) and isinstance(b, numpy.ndarray)):
+            continue
+        if a.dtype.kind in "iuf" and a.dtype.kind == b.dtype.kind and a.shape == b.shape and a.dtype != b.dtype:
+            out.append((k, "width", "written as %s, read back as %s" % (a.dtype, b.dtype)))
+    return out
+
+
+def _width_labels(ctx, snaps):
+    """classify the last two writes to one location by the item sizes of the numeric fields both objects have"""
+    if len(snaps) < 2:
+        return
+    prev, last = snaps[-2]["attrs"], snaps[-1]["attrs"]
+    for k in sorted(set(prev) & set(last)):
+        a, b = prev[k], last[k]
+        if not (isinstance(a, numpy.ndarray) and isinstance(b, numpy.ndarray)):
+            continue
+        if a.dtype.kind not in "if" or a.dtype.kind != b.dtype.kind or a.dtype == b.dtype:
+            continue
+        shape = "same_shape" if a.shape == b.shape else "other_shape"
+        order = "wide_over_narrow" if b.dtype.itemsize > a.dtype.itemsize else "narrow_over_wide"
+        ctx.label("overwrite:%s:%s" % (order, shape))
+        ctx.label("overwrite:%s:%s:%s" % (order, shape, "float" if a.dtype.kind == "f" else "int"))
+        if order == "wide_over_narrow" and shape == "same_shape":
+            with numpy.errstate(all="ignore"):
+                fits = numpy.array_equal(b.astype(a.dtype).astype(b.dtype), b, equal_nan=b.dtype.kind == "f")
+            ctx.label("overwrite:wide_over_narrow:same_shape:values_need_the_wider_type", not fits)
+            ctx.label("overwrite:wide_over_narrow:same_shape:values_need_the_wider_type:" + CATEGORY.get(k, "derived"), not fits)
 
 
 _OPTIONAL = {"taxa", "taxa_grp", "trait", "vrnt_chrgrp", "vrnt_phypos", "vrnt_name", "vrnt_genpos", "vrnt_xoprob",
@@ -1280,7 +1465,8 @@ def _mutate(x, depth=0):
             if x.dtype.kind in "iu":
                 x[...] = x + 1
             elif x.dtype.kind == "f":
-                x[...] = x + 1.0
+                y = x + 1.0
+                x[...] = numpy.where(y == x, x / 2.0, y)    # y == x: |x| beyond the integer range of the (single-precision) type
                 x[numpy.isnan(x)] = 0.0
             elif x.dtype.kind == "b":
                 x[...] = ~x
@@ -1335,7 +1521,10 @@ def _edit_source(obj, how, raw):
     if arr.dtype.kind == "i":
         arr[ix] = 1 - int(v) if int(v) in (0, 1) else 0
     else:
-        arr[ix] = float(v) + 1.0 if numpy.isfinite(v) else 0.5
+        new = arr.dtype.type(float(v) + 1.0) if numpy.isfinite(v) else arr.dtype.type(0.5)
+        if new == v:                        # |v| beyond the integer range of the (single-precision) type
+            new = arr.dtype.type(float(v) / 2.0)
+        arr[ix] = new
     if how == "setter":
         setattr(obj, name, arr)
     return name
@@ -1375,6 +1564,7 @@ def check_copy(case, ctx):
     obj, grouped = build(clsname, c)
     ctx.label("class:" + clsname)
     ctx.label("family:" + fam)
+    ctx.label("dtype_widths:" + (c.get("dt") or {}).get("profile", "default"))
     for gname in grouped:
         ctx.label("grouped_" + gname)
     snap = snapshot(obj)
@@ -1426,11 +1616,18 @@ def check_copy(case, ctx):
 SUBCHECKS = [
     SubCheck("hdf5", check_hdf5, hdf5_case(), quick=260, thorough=1500, shards_quick=6,
              rule="history of 1-4 generated objects of one class written with overwrite=True to 1-2 generated group paths "
-                  "of one file (str/Path/open handle), read back; non-trivial = last object has >=1 optional array "
+                  "of one file (str/Path/open handle), read back; half of the later writes to a location keep the array "
+                  "sizes of the object stored there before; numeric fields in drawn widths (float32/float64 data, "
+                  "location, scale; int8..int64 group ids, chromosome numbers, positions, haplotype groups, replicate "
+                  "counts) with values near the top of the drawn type; non-trivial = last object has >=1 optional array "
                   "present and >=1 absent, or the history overwrites a richer object with a poorer one; distinct by sha1",
              required_labels=("overwrite_richer_with_poorer", "non_ascii_label", "group:nested", "group:none",
                               "grouped_taxa", "grouped_vrnt", "family:geno", "family:bv", "family:cmat", "family:var",
-                              "family:gmod", "family:ge")),
+                              "family:gmod", "family:ge",
+                              "overwrite:wide_over_narrow:same_shape:values_need_the_wider_type",
+                              "overwrite:wide_over_narrow:same_shape:float", "overwrite:wide_over_narrow:same_shape:int",
+                              "overwrite:narrow_over_wide:same_shape", "overwrite:wide_over_narrow:other_shape",
+                              "overwrite:narrow_over_wide:other_shape")),
     SubCheck("frames", check_frames, frames_case(), quick=260, thorough=1500, shards_quick=5,
              rule="generated object written to pandas / CSV / *_dict / egmap with generated column names, separator, "
                   "units and read back with the same options; CSV files overwritten 1-3 times; non-trivial = mixed "
